@@ -7,15 +7,19 @@ package daedns
 // the ordinary category by the REAL RequestMatcher.  Protocol: lean/DaeVerif/C04/Main.lean.
 
 import (
+	"context"
 	"encoding/json"
+	"errors"
 	"fmt"
 	"go/ast"
 	"go/parser"
 	"go/token"
 	"os"
 	"path/filepath"
+	"reflect"
 	"strings"
 	"testing"
+	"unsafe"
 
 	"github.com/daeuniverse/dae/common/assets"
 	"github.com/daeuniverse/dae/common/consts"
@@ -24,6 +28,7 @@ import (
 	"github.com/daeuniverse/dae/config"
 	"github.com/daeuniverse/dae/pkg/config_parser"
 	"github.com/daeuniverse/dae/pkg/geodata"
+	"github.com/daeuniverse/outbound/protocol/direct"
 	"github.com/sirupsen/logrus"
 	"google.golang.org/protobuf/proto"
 )
@@ -100,6 +105,8 @@ type s04Env struct {
 	stats  *VStats
 	stages []string
 	lf     *assets.LocationFinder
+	hr     *VRand // history mode: the same config.Dns object is consumed by several constructors in a row
+	dnsNew bool   // componentdns.New is usable as the third consumer
 }
 
 // ---------------------------------------------------------------- geodata fixture (ground truth kept in memory)
@@ -177,16 +184,100 @@ func (e *s04Env) production(rules []*s04Rule, fb string) (map[string]*s04Matcher
 	if err != nil {
 		return nil, false
 	}
+	// History as production has it: cmd/run.go builds a router from conf.Dns for the subscription fetches, then
+	// NewControlPlane builds ANOTHER router from the same config.Dns object and, further down, hands that very
+	// object to dns.New.  The matchers that decide in this mode are the ones of the LATER consumers; they must
+	// decide like those of a first and only consumer (which is what the model is compared with).
+	var rq3 *componentdns.RequestMatcher
+	if e.hr.Chance(0.4) {
+		before := s04SerProg(rules)
+		r2, err2 := NewWithOption(e.log, &config.Global{}, cfg, &NewOption{LocationFinder: e.lf})
+		if err2 != nil || (r2 == nil) != (r == nil) {
+			e.stats.Inc("history.second_consumer_DISAGREES_on_acceptance")
+			return nil, false
+		}
+		r = r2
+		e.stats.Inc("history.programs_decided_by_second_router")
+		if e.dnsNew {
+			d, err3 := componentdns.New(cfg, &componentdns.NewOption{Logger: e.log, LocationFinder: e.lf})
+			if err3 == nil && d != nil {
+				v := reflect.ValueOf(d).Elem().FieldByName("reqMatcher")
+				if v.IsValid() && v.Type() == reflect.TypeOf((*componentdns.RequestMatcher)(nil)) {
+					rq3 = *(**componentdns.RequestMatcher)(unsafe.Pointer(v.UnsafeAddr()))
+					e.stats.Inc("history.request_matcher_of_third_consumer_dns.New")
+				} else {
+					e.dnsNew = false
+					e.stats.Inc("history.dns.New_NOT_usable")
+				}
+			} else {
+				e.stats.Inc("history.dns.New_rejected_what_NewWithOption_accepted")
+			}
+		}
+		if s04SerProg(rules) != before {
+			e.stats.Inc("history.written_rules_mutated_by_a_consumer")
+		}
+	}
 	if r == nil { // no rule at all: production uses no router
 		return map[string]*s04Matcher{}, true
 	}
-	return map[string]*s04Matcher{
+	m := map[string]*s04Matcher{
 		"nodeall": {cat: "nodeall", router: r},
+		"own":     {cat: "own", router: r},
+		"ownsub":  {cat: "ownsub", router: r},
 		"sub":     {cat: "sub", sub: r.subMatcher},
 		"node":    {cat: "node", nd: r.nodeMatcher},
 		"subnode": {cat: "subnode", nd: r.subNodeMatcher},
 		"dns":     {cat: "dns", rq: r.requestMatcher},
-	}, true
+	}
+	if rq3 != nil {
+		m["dns"] = &s04Matcher{cat: "dns", rq: rq3}
+	}
+	return m, true
+}
+
+// the upstream a lookup ends at, canonical: index of the upstream whose address it is; the pass-through
+// actions asis / reject (both hand dae's own lookup to the base resolver) -> the asis index.
+var s04UpHosts = map[string]uint8{"223.5.5.5": 0, "8.8.8.8": 1, "1.1.1.1": 2}
+
+func s04Pass() string { return fmt.Sprintf("%d.0.0", consts.DnsRequestOutboundIndex_AsIs) }
+
+// dae's own lookup, the production path: the dialer wrapper picks the upstream NAME by the internal selectors,
+// Router.selectUpstream (called by LookupIPAddr once per question type) takes that upstream or asks the request
+// matcher about the question.
+func (m *s04Matcher) own(in *s04Input) string {
+	var d any
+	var err error
+	if m.cat == "own" {
+		d, err = m.router.WrapNodeDialer(direct.SymmetricDirect, NodeMeta{SubscriptionTag: in.tag, Name: in.name, Link: in.link, AddressHost: "node.example"})
+	} else {
+		raw := in.link
+		if in.tag != "" {
+			raw = in.tag + ":" + in.link
+		}
+		d, err = m.router.WrapSubscriptionDialer(direct.SymmetricDirect, raw)
+	}
+	if err != nil {
+		return "wraperr"
+	}
+	rd, ok := d.(*resolvingDialer)
+	if !ok {
+		return s04Pass() // the base dialer: the base resolver answers
+	}
+	if rd.router != m.router || rd.controlUpstreamName != rd.upstreamName {
+		return "wrapped-with-other-router-or-control-upstream"
+	}
+	up, err := m.router.selectUpstream(context.Background(), rd.upstreamName, in.qname, in.qtype)
+	if err != nil {
+		if errors.Is(err, errPassthroughToBaseResolver) {
+			return s04Pass()
+		}
+		return "selecterr"
+	}
+	id, ok := s04UpHosts[up.Hostname]
+	if !ok {
+		return "unknown-upstream-" + up.Hostname
+	}
+	return fmt.Sprintf("%d.0.0", id)
 }
 
 var s04UpNames = []string{"alidns", "googledns", "cf"}
@@ -330,6 +421,8 @@ func (m *s04Matcher) decide(e *s04Env, in *s04Input) string {
 		case "nodeall":
 			up, ok := m.router.MatchNodeUpstream(NodeMeta{SubscriptionTag: in.tag, Name: in.name, Link: in.link})
 			return e.upId(up, ok)
+		case "own", "ownsub":
+			return m.own(in)
 		default:
 			up, err := m.rq.Match(in.qname, in.qtype)
 			if err != nil {
@@ -484,6 +577,9 @@ func s04GenProg(r *VRand, st *VStats) []*s04Rule {
 		name := s04Pick(r, names)
 		neg := r.Chance(0.15)
 		up := s04Pick(r, s04UpNames)
+		if (name == "qname" || name == "qtype") && r.Chance(0.2) { // the pass-through actions (only ordinary rules may name them)
+			up = s04Pick(r, []string{"asis", "reject"})
+		}
 		runLen := 1 + r.Intn(4)
 		for i := 0; i < runLen; i++ {
 			ng := neg
@@ -510,6 +606,19 @@ func s04GenProg(r *VRand, st *VStats) []*s04Rule {
 			u := up
 			if r.Chance(0.15) {
 				u = s04Pick(r, s04UpNames)
+			}
+			ordinary := true
+			for _, f := range rule.AndFunctions {
+				if f.Name != "qname" && f.Name != "qtype" {
+					ordinary = false
+				}
+			}
+			if u == "asis" || u == "reject" {
+				if ordinary {
+					st.Inc("gen.ordinary_rule_with_asis_or_reject")
+				} else {
+					u = s04Pick(r, s04UpNames)
+				}
 			}
 			rule.Outbound = s04Func{Name: u}
 			rules = append(rules, rule)
@@ -598,15 +707,32 @@ func (e *s04Env) runProgram(o *s04Out, r *VRand, tag string, rules []*s04Rule, f
 	if len(rules) == 0 {
 		st.Inc("programs_with_empty_rule_list")
 	}
-	var labelToks []string
-	seenOut := map[string]bool{}
-	for _, rule := range rules {
-		var sb strings.Builder
-		s04SerFunc(&sb, &rule.Outbound)
-		if !seenOut[sb.String()] {
-			seenOut[sb.String()] = true
-			labelToks = append(labelToks, fmt.Sprintf("%s F %d 0 0", sb.String(), e.ups[rule.Outbound.Name]))
+	// what an outbound decides: upstream index / the asis and reject actions; for dae's own lookups
+	// (own, ownsub) both actions mean "the base resolver" and are reported as the asis index
+	outId := func(name string, own bool) int {
+		switch name {
+		case "asis":
+			return int(consts.DnsRequestOutboundIndex_AsIs)
+		case "reject":
+			if own {
+				return int(consts.DnsRequestOutboundIndex_AsIs)
+			}
+			return int(consts.DnsRequestOutboundIndex_Reject)
 		}
+		return int(e.ups[name])
+	}
+	labels := func(own bool) []string {
+		var labelToks []string
+		seenOut := map[string]bool{}
+		for _, rule := range rules {
+			var sb strings.Builder
+			s04SerFunc(&sb, &rule.Outbound)
+			if !seenOut[sb.String()] {
+				seenOut[sb.String()] = true
+				labelToks = append(labelToks, fmt.Sprintf("%s F %d 0 0", sb.String(), outId(rule.Outbound.Name, own)))
+			}
+		}
+		return labelToks
 	}
 	// geodata references -> documented expansion (from the fixture's ground truth)
 	var geoToks []string
@@ -677,15 +803,17 @@ func (e *s04Env) runProgram(o *s04Out, r *VRand, tag string, rules []*s04Rule, f
 		inputs = append(inputs, s04GenInput(r))
 	}
 	changed := err == nil && errE == nil && opt != s04SerProg(E)
-	for _, cat := range []string{"sub", "node", "subnode", "dns", "nodeall"} {
+	for _, cat := range []string{"sub", "node", "subnode", "dns", "nodeall", "own", "ownsub"} {
+		own := cat == "own" || cat == "ownsub"
+		labelToks := labels(own)
 		split := "err"
 		if perr == nil {
 			switch cat {
-			case "sub":
+			case "sub", "ownsub":
 				split = fmt.Sprint(len(prog.SubscriptionRules))
 			case "node":
 				split = fmt.Sprint(len(prog.NodeRules))
-			case "subnode", "nodeall":
+			case "subnode", "nodeall", "own":
 				split = fmt.Sprint(len(prog.SubNodeRules))
 			default:
 				split = fmt.Sprint(len(prog.Rules))
@@ -693,13 +821,20 @@ func (e *s04Env) runProgram(o *s04Out, r *VRand, tag string, rules []*s04Rule, f
 		} else {
 			st.Inc(cat + ".split_or_opt_error")
 		}
-		var mRaw, mRaw2 *s04Matcher
+		var mRaw, mRaw2, mRaw3 *s04Matcher
 		if rerr == nil {
-			if cat == "nodeall" {
+			if cat == "nodeall" || cat == "own" {
 				a, ok1 := e.compileCat("subnode", progRaw)
 				b, ok2 := e.compileCat("node", progRaw)
-				if ok1 && ok2 {
-					mRaw, mRaw2 = a, b
+				c, ok3 := e.compileCat("dns", progRaw)
+				if ok1 && ok2 && (cat == "nodeall" || ok3) {
+					mRaw, mRaw2, mRaw3 = a, b, c
+				}
+			} else if cat == "ownsub" {
+				a, ok1 := e.compileCat("sub", progRaw)
+				c, ok3 := e.compileCat("dns", progRaw)
+				if ok1 && ok3 {
+					mRaw, mRaw3 = a, c
 				}
 			} else if mm, ok := e.compileCat(cat, progRaw); ok {
 				mRaw = mm
@@ -718,12 +853,22 @@ func (e *s04Env) runProgram(o *s04Out, r *VRand, tag string, rules []*s04Rule, f
 				noRouter = fmt.Sprintf("%d.0.0", consts.DnsRequestOutboundIndex_AsIs)
 			}
 		}
-		if cat == "subnode" || cat == "nodeall" {
+		if own { // the request fallback decides when neither a selector nor an ordinary rule matches
+			fbTok = fmt.Sprintf("%d 0 0", outId(fb, true))
+			fbDec = fmt.Sprintf("%d.0.0", outId(fb, true))
+			noRouter = s04Pass()
+		}
+		if cat == "subnode" || cat == "nodeall" || cat == "own" {
 			gn = "GN 1 subnode"
 		}
 		mcat := cat
-		if cat == "nodeall" {
+		switch cat {
+		case "nodeall":
 			backend, mcat = "selnode", "node"
+		case "own":
+			backend, mcat = "own", "node"
+		case "ownsub":
+			backend, mcat = "ownsub", "sub"
 		}
 		op := fmt.Sprintf("P %s %s 0 G %d %s L %d %s FB %s FBW %s 0 0 MX %d A %d %s %s %s", backend, mcat, len(geoToks), strings.Join(geoToks, " "),
 			len(labelToks), strings.Join(labelToks, " "), fbTok, fb, consts.MaxMatchSetLen, len(atoms), strings.Join(atomToks, " "), gn, s04SerProg(rules))
@@ -761,7 +906,7 @@ func (e *s04Env) runProgram(o *s04Out, r *VRand, tag string, rules []*s04Rule, f
 				bs = "-"
 			}
 			gb := "-"
-			if cat == "subnode" || cat == "nodeall" {
+			if cat == "subnode" || cat == "nodeall" || cat == "own" {
 				gb = "0"
 				if in.tag != "" {
 					gb = "1"
@@ -777,9 +922,30 @@ func (e *s04Env) runProgram(o *s04Out, r *VRand, tag string, rules []*s04Rule, f
 			}
 			raw := "err"
 			if mRaw != nil {
-				raw = mRaw.decide(e, in)
-				if cat == "nodeall" && (in.tag == "" || raw == fbDec) {
-					raw = mRaw2.decide(e, in)
+				none := "9999.0.0"
+				switch cat {
+				case "nodeall":
+					raw = mRaw.decide(e, in)
+					if in.tag == "" || raw == fbDec {
+						raw = mRaw2.decide(e, in)
+					}
+				case "own", "ownsub":
+					// the un-normalised program, category by category, in the documented precedence
+					raw = none
+					if cat == "ownsub" || in.tag != "" {
+						raw = mRaw.decide(e, in)
+					}
+					if raw == none && cat == "own" {
+						raw = mRaw2.decide(e, in)
+					}
+					if raw == none {
+						raw = mRaw3.decide(e, in)
+						if raw == fmt.Sprintf("%d.0.0", consts.DnsRequestOutboundIndex_Reject) {
+							raw = s04Pass()
+						}
+					}
+				default:
+					raw = mRaw.decide(e, in)
 				}
 			}
 			spec := s04SpecCat(cat, E, truth, in.tag != "", e.ups, fbDec)
@@ -795,6 +961,37 @@ func (e *s04Env) runProgram(o *s04Out, r *VRand, tag string, rules []*s04Rule, f
 					}
 				} else {
 					st.Inc("nodeall.decision.subnode_rule")
+				}
+			}
+			if own { // selectors of the written list first (own: subnode before node), then the ordinary rules, then the fallback
+				none := "9999.0.0"
+				spec = none
+				if cat == "ownsub" {
+					spec = s04SpecCat("sub", E, truth, false, e.ups, none)
+				} else {
+					if in.tag != "" {
+						spec = s04SpecCat("subnode", E, truth, true, e.ups, none)
+					}
+					if spec == none {
+						spec = s04SpecCat("node", E, truth, in.tag != "", e.ups, none)
+					}
+				}
+				if spec != none {
+					st.Inc(cat + ".decision.by_selector_rule")
+				} else {
+					spec = s04SpecCat("dns", E, truth, false, e.ups, none)
+					if spec == fmt.Sprintf("%d.0.0", consts.DnsRequestOutboundIndex_Reject) {
+						spec = s04Pass()
+					}
+					if spec != none {
+						st.Inc(cat + ".decision.by_ordinary_rule_on_the_question")
+						if spec == s04Pass() {
+							st.Inc(cat + ".decision.by_ordinary_rule_passthrough")
+						}
+					} else {
+						spec = fbDec
+						st.Inc(cat + ".decision.by_request_fallback")
+					}
 				}
 			}
 			o.emit("q "+bs+" "+gb, "dec="+dec+" spec="+spec+" raw="+raw, s04Descr{Kind: "q", Pkt: in.String(cat)})
@@ -838,7 +1035,8 @@ func TestVerifC04Sel(t *testing.T) {
 	defer func() { st.Close(); descr.Close(); stats.Write("c04sel") }()
 	log := logrus.New()
 	log.SetLevel(logrus.PanicLevel)
-	env := &s04Env{log: log, ups: map[string]uint8{"alidns": 0, "googledns": 1, "cf": 2}, atomM: map[s04Atom]any{}, stats: stats}
+	env := &s04Env{log: log, ups: map[string]uint8{"alidns": 0, "googledns": 1, "cf": 2}, atomM: map[s04Atom]any{}, stats: stats,
+		hr: NewVRand(VSeed() + 1009), dnsNew: true}
 	env.r = &Router{log: log, upstreams: map[string]*componentdns.UpstreamResolver{"alidns": {}, "googledns": {}, "cf": {}}}
 
 	geoDir := filepath.Join(VOutDir(), "c04selgeo")
@@ -853,6 +1051,43 @@ func TestVerifC04Sel(t *testing.T) {
 	found, siteLine := s04ReadSite()
 	env.stages = s04Usable(found)
 	out.emit("pipeline daedns "+s04Tok(strings.Join(found, ",")), siteLine, s04Descr{Kind: "pipeline", Backend: "daedns", Text: found})
+
+	// The model's input assumption for this pipeline: a selector without parameters (the catch-all forms the
+	// documentation advertises) cannot be written -- the parser rejects every such form, also inside the dns
+	// request section, negated, or next to a selector that has parameters.
+	if _, err := config_parser.Parse("global {}\ndns {\n upstream { alidns: 'udp://223.5.5.5:53' }\n routing { request {\n  sub(my_sub) -> alidns\n  fallback: asis\n } }\n}\n"); err != nil {
+		t.Fatalf("control form does not parse: %v", err)
+	}
+	for _, bad := range []string{"sub() -> alidns", "node() -> alidns", "subnode() -> alidns", "!sub() -> alidns",
+		"sub() && sub(my_sub) -> alidns", "qname() -> alidns", "sub(my_sub) -> alidns()"} {
+		text := "global {}\ndns {\n upstream { alidns: 'udp://223.5.5.5:53' }\n routing { request {\n  " + bad + "\n  fallback: asis\n } }\n}\n"
+		if _, err := config_parser.Parse(text); err == nil {
+			out.emit("parser-accepts "+strings.ReplaceAll(bad, " ", "_"), "unexpected", s04Descr{Kind: "x", Text: []string{bad}})
+		} else {
+			stats.Inc("parser.rejects_parameterless_forms")
+		}
+	}
+	// Latent, NOT reachable from a configuration (only an AST built by hand has a parameterless selector):
+	// MergeAndSortRulesOptimizer's merge condition does not look at the number of parameters, so
+	// `sub() -> alidns ; sub(my_sub) -> alidns` is merged into `sub(my_sub) -> alidns` and the catch-all is lost.
+	// Recorded as a counter only (design note C04, goal 0).
+	{
+		rules := []*s04Rule{
+			{AndFunctions: []*s04Func{{Name: "sub"}}, Outbound: s04Func{Name: "alidns"}},
+			{AndFunctions: []*s04Func{{Name: "sub", Params: []*s04Param{{Val: "my_sub"}}}}, Outbound: s04Func{Name: "alidns"}},
+		}
+		cfg := &config.Dns{Upstream: []config.KeyableString{"alidns:udp://223.5.5.5:53"}}
+		cfg.Routing.Request.Rules, cfg.Routing.Request.Fallback, cfg.Routing.Response.Fallback = rules, "asis", "accept"
+		if r, err := NewWithOption(log, &config.Global{}, cfg, &NewOption{LocationFinder: env.lf}); err == nil && r != nil {
+			if _, ok := r.MatchSubscriptionUpstream("other:https://a.example/sub"); ok {
+				stats.Inc("latent.hand_built_ast.paramless_selector_keeps_catch_all")
+			} else {
+				stats.Inc("latent.hand_built_ast.paramless_selector_MERGED_AWAY")
+			}
+		} else {
+			stats.Inc("latent.hand_built_ast.rejected")
+		}
+	}
 
 	fixed := []*s04Input{
 		{tag: "my_sub", link: "https://a.example/sub", name: "hk-1", qname: "a.com", qtype: 1},
